@@ -350,6 +350,15 @@ O(id="C12.frame_rules", props=["C12", "C06"], entry="harness_frame_rules",
   symbolic="FIN, RSV (0..7), opcode (0..15), fragmentation state (in progress, text/binary), payload length 0..6 or 126, payload bytes, application callback verdict",
   assumes=["fragmentation state is consistent (is_fragmented <=> frag_opcode in {text,binary}): established by websocket_init and preserved (C12.fragmentation_* labels)"],
   bounds="payload <= 6 bytes (exact-size heap object) or the abstract length 126 for the control-frame limit", **_ws)
+O(id="C18.close_reason", props=["C18", "C12", "C06"], entry="harness_close_reason", reach=["malformed", "wellformed_accepted"],
+  functions=["ws_handle_frame (close frame)", "cjet_init_checker", "cjet_is_byte_sequence_valid", "is_byte_valid", "is_status_code_invalid", "handle_error", "websocket_close"],
+  symbolic="status code (both bytes), reason length 1..6, every reason byte, fragmentation state, callback set",
+  assumes=["fragmentation state is consistent, as C12.frame_rules"],
+  bounds="reason <= 6 bytes (one four-byte sequence plus two bytes); longer reasons go through the same byte loop, whose step is C18.byte_step",
+  **dict(_ws, unwindset={"strlen.0": 24, "ws_writev.0": 16, "cjet_is_byte_sequence_valid.0": 8, "harness_close_reason.0": 10, "harness_close_reason.1": 8}))
+O(id="C18.close_reason_len12", props=["C18", "C12", "C06"], entry="harness_close_reason", reach=["malformed", "wellformed_accepted"], tier="quick", defines=["MAXREASON=12"],
+  functions=["as C18.close_reason"], symbolic="as C18.close_reason, reason length 1..12", assumes=["as C18.close_reason"], bounds="reason <= 12 bytes",
+  **dict(_ws, unwind=16, unwindset={"strlen.0": 24, "ws_writev.0": 16, "cjet_is_byte_sequence_valid.0": 14, "harness_close_reason.0": 16, "harness_close_reason.1": 14}))
 O(id="C06.ws_daemon_callbacks", props=["C06", "C12"], entry="harness_daemon_callbacks", reach=["daemon_fragment", "binary_unsupported", "text"],
   functions=["ws_handle_frame (callback set of websocket_peer.c: text_message, close, pong)"],
   symbolic="as C12.frame_rules", assumes=["as C12.frame_rules"], bounds="as C12.frame_rules", **_ws)
